@@ -21,6 +21,10 @@ Lemma ob_log_url_uses_redacted : log_url_uses_redacted = true.
 Proof. vm_compute. reflexivity. Qed.
 Lemma ob_log_short_url_omits_userinfo : log_short_url_omits_userinfo = true.
 Proof. vm_compute. reflexivity. Qed.
+(* every HTTP log record is built in a fresh builder / writer: nothing an earlier exchange put there
+   (a header dump of a 5xx exchange, say) can reappear in a later url / short-url line *)
+Lemma ob_log_builders_fresh_per_line : log_builders_fresh_per_line = true.
+Proof. vm_compute. reflexivity. Qed.
 Lemma ob_describe_shape : describe_sorted_name_eq_value = true.
 Proof. vm_compute. reflexivity. Qed.
 (* nobody asks DescribeFlags for the unredacted values *)
